@@ -135,6 +135,8 @@ def _run_session(rd, drv, dongle, case, out, session_index):
                     pk = CRTPPacket()
                     pk.set_header(up_seq % 15, (up_seq // 15) % 4)
                     pk.data = bytes([up_seq & 0xff, up_seq >> 8]) if up_seq % 5 else bytes([up_seq & 0xff, up_seq >> 8, 0xF3, 0xFF])
+                    if up_seq % 7 == 3:
+                        pk.data = b''       # header-only packet: told apart from its neighbours by port and channel
                     if drv.send_packet(pk):
                         submitted.append((pk.header & 0xF3, bytes(pk.data)))
                     up_seq += 1
